@@ -193,13 +193,48 @@ func ttxHostileStream(r *fw.Rand) ([]byte, astisub.TeletextOptions) {
 		}
 		w.payloadUnit(pmtPID, pmtSection(1, 0x1ff0, streams), true)
 	}
-	if !r.P(1, 8) {
+	// "primed" streams put the reader in the receiving state first (valid tables, a valid header of the selected page),
+	// so that the hostile units that follow reach the row and enhancement-packet code
+	primed := r.Bool()
+	if primed || !r.P(1, 8) {
 		tables()
 		tables()
 	}
 	pts := r.I64n(1 << 33)
-	for k := 0; k < r.Range(1, 12); k++ {
+	npes := r.Range(1, 12)
+	for k := 0; k < npes; k++ {
 		var payload []byte
+		if primed {
+			payload = []byte{0x10}
+			if k == 0 || r.P(1, 4) {
+				payload = append(payload, ttxUnit(0x03, 0xe4, mag, 0, ttxHeader(page, ttxHeaderFlags{subtitle: true, serial: r.Bool(), charset: r.Intn(8)}))...)
+			}
+			nu := r.Range(1, 5)
+			for u := 0; u < nu; u++ {
+				length := fw.Pick(r, []int{0x2c, 0x2c, 4, 5, 11, 12, 41, 42, 43, 44, 45, 46, 255})
+				body := make([]byte, length)
+				for q := range body {
+					body[q] = byte(r.Intn(256))
+				}
+				pk := fw.Pick(r, []int{r.Range(1, 25), r.Range(1, 25), 26, 27, 28, 29, 30, 31, 0})
+				m := mag & 7
+				if r.P(1, 5) {
+					m = r.Intn(8)
+				}
+				body[1] = 0xe4
+				body[2], body[3] = ham84(byte(m)|byte(pk&1)<<3), ham84(byte(pk>>1))
+				if length > 4 && pk >= 26 {
+					body[4] = ham84(byte(fw.Pick(r, []int{0, 4, r.Intn(16)})))
+				}
+				payload = append(payload, append([]byte{0x03, byte(length)}, body...)...)
+			}
+			if r.P(1, 6) && len(payload) > 4 {
+				payload = payload[:len(payload)-r.Range(1, 40)%len(payload)]
+			}
+			w.payloadUnit(tpid, pesPacket(0xbd, pts, r.Bool(), payload), false)
+			pts += int64(r.Intn(90000))
+			continue
+		}
 		switch r.Intn(8) {
 		case 0: // empty or tiny payload
 			payload = make([]byte, r.Intn(3))
@@ -265,6 +300,9 @@ func ttxHostileStream(r *fw.Rand) ([]byte, astisub.TeletextOptions) {
 		}
 	}
 	opts := astisub.TeletextOptions{Page: fw.Pick(r, []int{0, 0, mag*100 + page, 100, 888, 899, -1, 1 << 20}), PID: fw.Pick(r, []int{0, 0, int(tpid), 256, 8191, 70000})}
+	if primed {
+		opts = astisub.TeletextOptions{Page: fw.Pick(r, []int{0, mag*100 + page}), PID: fw.Pick(r, []int{0, int(tpid)})}
+	}
 	return w.buf.Bytes(), opts
 }
 
